@@ -104,6 +104,11 @@ MCOptsCore == {OptDefault, OptForce, OptRefs, OptDTags}
 MCOptsAll == {OptDefault, OptForce, OptFast, OptPlats, OptRefs, OptRefsSbom, OptRefsForce, OptRefsFast, OptDTags,
               OptRefsDTags, OptExt}
 MCOptsRefs == {OptRefs, OptRefsDTags}
+MCOptsRefsOnly == {OptRefs}
+MCOptsRefs2 == {OptRefs, OptRefsSbom}
+MCOptsNoRefs == {OptDefault, OptForce, OptFast, OptPlats, OptDTags, OptExt}
+MCOptsForce == {OptDefault, OptForce}
+MCOptsDTags == {OptDefault, OptDTags}
 MCFeatsDefault == {FeatAll}
 MCFeatsCore == {FeatAll, FeatNoRefApi}
 MCFeatsMount == {FeatAll, FeatNoMount}
